@@ -1507,7 +1507,21 @@ def _ordered_dict(B, I, *a, **k):
     return B.b_dict(I, *a, **k)
 
 
+def _warnings_warn(B, I, message=None, category=None, stacklevel=1, source=None, **kw):
+    """warnings.warn: nothing observable under the default filters (the text goes to stderr); under `-W error` the category is raised"""
+    from . import ae as _ae
+    if not _ae.WARNINGS_AS_ERRORS:
+        return None
+    if isinstance(message, Obj) and message.cls.issub(B.EXC["Warning"]):
+        raise Raised(message)
+    cat = category if isinstance(category, ClassV) else B.EXC["UserWarning"]
+    if not cat.issub(B.EXC["Warning"]):
+        raise Raised(B.mkexc("TypeError", "category must be a Warning subclass"))
+    raise Raised(I.call(cat, [message], {}))
+
+
 _EXT_FUNCS = {
+    "warnings.warn": _warnings_warn,
     "uuid.uuid4": _uuid4,
     "json.dumps": _json_dumps,
     "copy.copy": _copy_copy,
